@@ -396,6 +396,9 @@ impl Interp {
                 if let Some(v) = env.get(name) {
                     return Ok(v);
                 }
+                if name == "*unspecified*" {
+                    return Ok(V::Unspec);
+                }
                 match prim_name(name) {
                     Some(p) => Ok(V::Prim(p)),
                     None => {
